@@ -44,7 +44,7 @@ Abs(txt, op, statics) ==
     [] op.op = "clear"         -> A(Set(txt, op.h, <<>>), "ok", <<>>, "")
     [] op.op = "remove" ->
          IF op.n >= len \/ ~IsBoundary(t, op.n) THEN A(txt, "panic", <<>>, "index")
-         ELSE LET w == WidthOfLead(t[op.n + 1]) IN
+         ELSE LET w == Min(WidthOfLead(t[op.n + 1]), len - op.n) IN
               A(Set(txt, op.h, SubSeq(t, 1, op.n) \o SubSeq(t, op.n + w + 1, len)), "ok", SubSeq(t, op.n + 1, op.n + w), "")
     [] op.op = "insert_str" ->
          IF ~IsBoundary(t, op.n) THEN A(txt, "panic", <<>>, "index")
